@@ -356,6 +356,79 @@ def _work(chunk: list[Any]) -> dict:
     return res
 
 
+# ---- histories of user-defined units -----------------------------------------------------------------
+# A unit the user defines through sympy's unit system may be defined late and redefined; a quantity
+# built from it has the value and dimension of the unit's definition at the time of construction.
+
+EVENTS = ("use", "def:length:7/2", "def:length:201/100", "def:time:5/3", "rel:length:9/4")
+
+
+def history_case(hist: tuple) -> list[tuple[str, str]]:
+    from sympy.physics.units import Quantity as SQ
+    from sympy.physics.units.systems.si import SI
+    from symplyphysics import Quantity
+    out = []
+    _HIST[0] += 1
+    unit = SQ(f"vp_user_unit_{_HIST[0]}_{'_'.join(e.split(':')[0] for e in hist)}")
+    current = None  # (dimension name, SI factor)
+    defined_in_si = False
+    for step, ev in enumerate(hist):
+        kind, *rest = ev.split(":")
+        if kind in ("def", "rel"):
+            dname, val = rest
+            base = U.meter if dname == "length" else U.second
+            v = sp.Rational(val)
+            if kind == "def":
+                SI.set_quantity_dimension(unit, getattr(U, dname))
+                SI.set_quantity_scale_factor(unit, v * base)
+                defined_in_si = True
+                current = (dname, v)
+            else:
+                unit.set_global_relative_scale_factor(v, base)
+                if not defined_in_si:  # sympy: a definition inside the SI system wins over a global one
+                    current = (dname, v)
+            continue
+        key = f"history:{'>'.join(hist)}@{step}"
+        if current is None:
+            # used before it is defined: nothing is promised, but it must not poison later uses
+            try:
+                Quantity(2 * unit)
+            except Exception:  # pylint: disable=broad-except
+                pass
+            continue
+        try:
+            q = Quantity(2 * unit * U.meter)
+        except Exception as ex:  # pylint: disable=broad-except
+            out.append((key, f"Quantity(2*unit*meter) raised {type(ex).__name__}: {short(ex)}"))
+            continue
+        want_dim = (dims.L if current[0] == "length" else dims.T) * dims.L
+        want_val = 2 * current[1]
+        gd = dims.of_dimension(q.dimension)
+        ok = dims.same(gd, want_dim) and values.close(values.raw_to_si(q.scale_factor, want_dim),
+            values.mpc(want_val), 1e-12)
+        out.append((key, "" if ok else
+            f"unit currently defined as {current[1]} {current[0]}: Quantity(2*unit*meter) has scale "
+            f"{short(q.scale_factor)} and dimension {gd}, reference {want_val} of {want_dim}"))
+    return out
+
+
+_HIST = [0]
+
+
+def history_work(chunk: list) -> dict:
+    _setup()
+    res: dict[str, Any] = {"n": 0, "keys": [], "outcomes": {}, "violations": [], "undecided": [],
+        "samples": []}
+    for hist in chunk:
+        for key, viol in history_case(tuple(hist)):
+            res["n"] += 1
+            res["keys"].append(key)
+            res["outcomes"]["history"] = res["outcomes"].get("history", 0) + 1
+            if viol:
+                res["violations"].append((key, viol, {"history": list(hist), "key": key}))
+    return res
+
+
 def main(run: Run) -> int:
     _setup()
     import time
@@ -369,12 +442,22 @@ def main(run: Run) -> int:
         run.evaluations += n
         r["n"] = 0
         run.absorb([r])
+    depth = 5 if run.thorough else 4
+    hists = [h for n in range(2, depth + 1) for h in itertools.product(EVENTS, repeat=n) if "use" in
+        h]
+    for r in pmap(history_work, [hists[i:i + 60] for i in range(0, len(hists), 60)]):
+        n = r.pop("n")
+        run.evaluations += n
+        r["n"] = 0
+        run.absorb([r])
+    run.note(unit_histories=len(hists), history_depth=depth)
     run.note(bound=("<= 3 internal nodes (third level over the reduced menu)" if run.thorough else
         "<= 2 internal nodes"))
     return run.finish(
         rule="all trees with <= n internal nodes over the leaf/operator alphabet, built with sympy "
         "evaluation on; distinct = distinct canonical trees as received by Quantity() (leaf-only "
-        "inputs are counted as trivial)",
+        "inputs are counted as trivial); all define / redefine / use histories of a user-defined unit "
+        "up to the stated depth",
         exhaustive=True,
         assumptions=["reference unit table vp/values.py", "small-scope hypothesis for depth > bound",
             "cases the property leaves open (complex infinity, non-real powers of dimensional bases, "
@@ -387,6 +470,9 @@ def replay(case: dict) -> list[str]:
     def tup(x: Any) -> Any:
         return tuple(tup(i) for i in x) if isinstance(x, list) else x
 
+    if "history" in case:
+        return [f"{k}: {v}" for k, v in history_case(tuple(case["history"])) if v and k ==
+            case["key"]]
     e = build(tup(case["tree"]))
     _, viol = judge(e)
     return [f"{show(e)}: {viol}"] if viol else []
